@@ -339,6 +339,12 @@ def run(R):
     R.check(okl, "C14.RETRY", w.qualname + ":range", R.site(w, lp), "the loop runs range(max_tries)", "the retry loop iterates `%s`" % q.src(lp.iter))
     iv = lp.target.id if isinstance(lp.target, ast.Name) else "i"
     trys = [n for n in lp.body if isinstance(n, ast.Try)]
+    outside = [c for st in lp.body if not isinstance(st, ast.Try) for c in q.calls(st) if q.src(c.func).endswith("fn.asynq")]
+    if outside:
+        R.violation("C14.RETRY", w.qualname + ":body", R.site(w, outside[0]),
+                    "the attempt is created (`%s`) outside the try block: a listed exception raised while the call is made - an @async_proxy body, any "
+                    "wrapper that raises before returning its future - is not retried" % q.src(outside[0])[:50])
+        return
     R.need(len(trys) == 1 and len(lp.body) == 1, "idiom: the retry loop body is not a single try")
     tr = trys[0]
     okh = len(tr.handlers) == 1 and q.src(tr.handlers[0].type) == "exception_cls" and not tr.finalbody
